@@ -256,6 +256,12 @@ def handle (op : String) (args : List String) : Option String := do
           pure (boolStr (isMin && own && px == cx && py == cy && pz == cz))
         | _ => none
       | _ => none
+  | "c16.holds.bvh_point_range_witness" => do   -- known finding C16-bvh-point-range: same predicate as c16.holds.bvh
+      match args.drop 1 with
+      | [fa, da, fb, db] =>
+        let da ← hexF? da; let db ← hexF? db
+        pure (boolStr (fa == fb && (fa == "false" || da == db)))
+      | _ => none
   | "c16.holds.bvh" => do         -- args: <which> flagIndex distIndex flagList distList
       match args.drop 1 with
       | [fa, da, fb, db] =>
